@@ -586,6 +586,10 @@ val allows_literal_callers : config -> char list -> bool
 
 val var_prefix : config -> char list
 
+val configured_dsts : config -> char list list
+
+val configured : config -> char list -> bool
+
 type raw_method = { rm_src : char list; rm_dst : char list option;
                     rm_operator : bool option; rm_awc : bool option }
 
@@ -1043,9 +1047,21 @@ val stop_kind : node -> bool
 
 val meas : (node -> nat option) -> nat -> node -> nat
 
+val meas_list : (node -> nat option) -> nat -> node list -> nat
+
 val no_stop : node -> nat option
 
 val ns_count : node -> nat
+
+val name_weight : (char list -> bool) -> node -> nat
+
+val stop_names : (char list -> bool) -> node -> nat option
+
+val badname : (char list -> bool) -> node -> nat
+
+val badname_list : (char list -> bool) -> node list -> nat
+
+val ns_members : node -> node list
 
 val any_node : (node -> bool) -> node -> bool
 
